@@ -11,9 +11,9 @@
    checked by correspondence (pretty-printing generated ASTs under all spellings/layouts and comparing the parser's
    ASTs and the verdicts; tools/gv/props/c14.py). *)
 From GV.Model Require Import Ast Spec.
-From GV.Model Require Import Lex ValueParse QueryParse OpParse ClauseParse CnfParse FilterParse ClauseFParse CnfFParse LetParse CallParse.
+From GV.Model Require Import Lex ValueParse QueryParse OpParse ClauseParse CnfParse FilterParse ClauseFParse CnfFParse LetParse CallParse FullParse.
 From GV.Proofs Require Import LexProps ValueParseProps ValueSpellProps ValueSpellExample.
-From GV.Proofs Require Import QueryParseProps QuerySpellProps QuerySpellExample ThisProps OpParseProps ClauseParseProps ClauseSpellProps ClauseSpellExample CnfParseProps OpSoundProps ClauseFuelProps CnfSpellProps CnfSpellExample FilterParseProps ClauseFProps CnfFProps LetParseProps CallParseProps FuelMonoProps CallExtendProps.
+From GV.Proofs Require Import QueryParseProps QuerySpellProps QuerySpellExample ThisProps OpParseProps ClauseParseProps ClauseSpellProps ClauseSpellExample CnfParseProps OpSoundProps ClauseFuelProps CnfSpellProps CnfSpellExample FilterParseProps ClauseFProps CnfFProps LetParseProps CallParseProps FuelMonoProps CallExtendProps FullParseProps.
 
 Theorem C14_keyword_tables_are_the_documented_ones :
   set_eqb kw_in_keyword ["in"; "IN"] = true /\ set_eqb kw_keys ["keys"; "KEYS"] = true /\
@@ -376,3 +376,15 @@ Theorem C14_clause_parser_with_calls_extends : forall rv n s x, clause_f rv n s 
   forall m, (n <= m)%nat -> clause_c rv (S m) s = pmap with_calls x.
 Proof. exact clause_c_extends. Qed.
 Print Assumptions C14_clause_parser_with_calls_extends.
+
+(* ---- the whole grammar (Model/FullParse.v = parser.rs rules_file), tied on whole files ---- *)
+
+(* the comparison used by the whole-file tie is equality: an agreement means the model's tree IS the tree of the implementation's AST *)
+Theorem C14_whole_file_agreement_is_equality : forall rv name text t',
+  rules_file_obs rv name text (IFileOk t') = FVAgree -> rules_file rv name text = FOk t'.
+Proof. exact agreement_is_equality. Qed.
+Print Assumptions C14_whole_file_agreement_is_equality.
+
+Theorem C14_layout_only_is_the_empty_file : forall rv name s, skip_ws_comments s = EmptyString -> rules_file rv name s = FEmpty.
+Proof. exact layout_only_is_empty. Qed.
+Print Assumptions C14_layout_only_is_the_empty_file.
